@@ -279,7 +279,8 @@ def ray_triangle_id(
     # only return points that are forward from the origin
     vector = location - ray_origins[index_ray]
     distance = util.diagonal_dot(vector, ray_directions[index_ray])
-    forward = distance > -1e-6
+    # the projection is scaled by the length of the direction vector
+    forward = distance > -1e-6 * util.row_norm(ray_directions[index_ray])
 
     index_tri = index_tri[forward]
     index_ray = index_ray[forward]
